@@ -20,7 +20,7 @@ TraceInit == EmptyPool /\ l = 1
 TSession  == IsEvent("session") /\ UNCHANGED pvars
 TNew      == IsEvent("pnew") /\ PNewCore(Ev.min, Ev.max, Ev.rules, Ev.model)
 TNewTry   == IsEvent("pnew_try") /\ ~Ev.panic /\ PNewTryCore(Ev.min, Ev.max, Ev.model, Ev.textok, Ev.ok)
-TArrive   == IsEvent("arrive") /\ ArriveCore(Ev.q, Rng(Ev.keys), Ev.names, Ev.fail, Ev.failmay)
+TArrive   == IsEvent("arrive") /\ ArriveCore(Ev.q, Rng(Ev.keys), Ev.names, Ev.fail, Ev.failmay, Ev.ord)
 TPop      == IsEvent("pop") /\ (CheckLocks => Ev.locked = 1) /\ PopCore(Ev.q, Ev.i, Ev.len)
 TSpin     == IsEvent("spin") /\ SpinCore
 TPeek     == IsEvent("peek") /\ PeekCore(Ev.q, Ev.key, Ev.val)
